@@ -299,6 +299,11 @@ def _r2(run, classes):
 # ------------------------------------------------------------------------------------------ R3
 def _r3(run, classes):
     run.describe('C03-R3', 'species / rate selection in _populate_cache')
+    from ..inline import propagate
+
+    def pc(cname):
+        # single-definition locals replaced by their definitions: a hoisted 'charge + 1' is still 'charge + 1'
+        return propagate(classes[cname].methods['_populate_cache'])
 
     def calls_of(fn, attr):
         return [c for c in ast.walk(fn) if isinstance(c, ast.Call) and isinstance(c.func, ast.Attribute) and c.func.attr == attr]
@@ -322,13 +327,13 @@ def _r3(run, classes):
             run.fail('C03-R3', '%s|%s|_populate_cache|%s' % (ci.mod.name, cname, what), ci.mod.relpath, fn.lineno,
                      '%s requests %s(%s); documented: %s(%s)' % (cname, attr, got, attr, ', '.join(want)))
     E, Q, T = 'self._line.element', 'self._line.charge', 'self._line.transition'
-    fn = classes['ExcitationLine'].methods['_populate_cache']
+    fn = pc('ExcitationLine')
     expect_call('ExcitationLine', fn, 'get', [E, Q], 'target species')
     expect_call('ExcitationLine', fn, 'impact_excitation_pec', [E, Q, T], 'rate')
-    fn = classes['RecombinationLine'].methods['_populate_cache']
+    fn = pc('RecombinationLine')
     expect_call('RecombinationLine', fn, 'get', [E, Q + ' + 1'], 'target species')
     expect_call('RecombinationLine', fn, 'recombination_pec', [E, Q, T], 'rate')
-    fn = classes['ThermalCXLine'].methods['_populate_cache']
+    fn = pc('ThermalCXLine')
     expect_call('ThermalCXLine', fn, 'get', [E, Q + ' + 1'], 'receiver species')
     expect_call('ThermalCXLine', fn, 'thermal_cx_pec', ['species.element', 'species.charge', E, Q + ' + 1', T], 'rate')
     ci = classes['ThermalCXLine']
@@ -345,7 +350,7 @@ def _r3(run, classes):
     else:
         run.fail('C03-R3', '%s|ThermalCXLine|_populate_cache|donor-filter' % ci.mod.name, ci.mod.relpath, fn.lineno,
                  'ThermalCXLine donors are not "every species except the receiver with charge < atomic number"')
-    fn = classes['TotalRadiatedPower'].methods['_populate_cache']
+    fn = pc('TotalRadiatedPower')
     expect_call('TotalRadiatedPower', fn, 'line_radiated_power_rate', ['self._element', 'self._charge'], 'plt rate')
     expect_call('TotalRadiatedPower', fn, 'continuum_radiated_power_rate', ['self._element', 'self._charge + 1'], 'prb rate')
     expect_call('TotalRadiatedPower', fn, 'cx_radiated_power_rate', ['self._element', 'self._charge + 1'], 'prc rate')
@@ -370,7 +375,7 @@ def _r3(run, classes):
                  'hydrogen CX donors are not the three hydrogen isotopes at charge 0')
     # bremsstrahlung: charges and densities of the same species in the same order
     ci = classes['Bremsstrahlung']
-    fp, fe = ci.methods['_populate_cache'], ci.methods['emission']
+    fp, fe = propagate(ci.methods['_populate_cache']), ci.methods['emission']
     run.subject('C03-R3')
 
     def filt(fn):
